@@ -289,7 +289,7 @@ def run_small(run, wd, cases, st, tag):
     """smallest / largest cases. Returns (kept, indices failing holds_C16s, indices failing corr_C16s)."""
     if not cases:
         return [], [], []
-    res = common.run_impl('pC16', 'impl_small', cases, timeout_item=60)
+    res = common.run_impl('pC16', 'impl_small', cases, timeout_item=8)
     terms, keep = [], []
     for c, r in zip(cases, res):
         if 'ok' not in r:
@@ -321,7 +321,7 @@ def run_cases(run, wd, cases, st, tag='cases'):
                        'n': o['n'], 'observed': o['out'], 'replay': './check C16 --replay <this file>'})
     run.small_kept = getattr(run, 'small_kept', 0) + len(skeep)
     run.small_bad_corr = getattr(run, 'small_bad_corr', []) + [skeep[i][1] for i in sbad_corr]
-    res = common.run_impl('pC16', 'impl_history', cases, timeout_item=60)
+    res = common.run_impl('pC16', 'impl_history', cases, timeout_item=8)
     terms, keep = [], []
     for c, r in zip(cases, res):
         if 'ok' not in r:
